@@ -1011,9 +1011,43 @@ def inc_negative_batch_equal(g, b):
         g.count("inc_neg32:" + how)
 
 
+def fixed_bsi_episodes(g):
+    """always present: clearing with the index's own existence bitmap and setting the columns again; loading (stream / marshal)
+    into a previously used, wider receiver — for both implementations"""
+    for w in ("32", "64"):
+        s = g.fresh("fx")
+        g.emit("bnew %s %s" % (s, w))
+        for c, v in [(1, 6), (2, 1000), (7, 255), (4000000000, 3), (9, 70000)]:
+            g.emit("bset %s %d %d" % (s, c, v))
+        g.emit("bclr %s @" % s)
+        g.emit("bdump %s" % s)
+        for c, v in [(1, 1), (2, 7), (7, 0), (9, 4)]:
+            g.emit("bset %s %d %d" % (s, c, v))
+        g.emit("bdump %s" % s)
+        g.emit("bclr %s @" % s)
+        g.emit("bset %s 1 2" % s)
+        g.emit("bdump %s" % s)
+        # narrow source, wide used receiver
+        a = g.fresh("fx")
+        g.emit("bnew %s %s" % (a, w))
+        for c, v in [(1, 5), (2, 6), (3, 2), (1099511627776 if w == "64" else 3000000000, 0)]:
+            g.emit("bset %s %d %d" % (a, c, v))
+        for how in (["bmarsh", "bstream"] if w == "64" else ["bmarsh"]):
+            u, t = g.fresh("fu"), g.fresh("ft")
+            g.emit("bnew %s %s" % (u, w))
+            for c, v in [(1, 1000), (2, 4611686018427387905), (3, 70000), (8, 12)]:
+                g.emit("bset %s %d %d" % (u, c, v))
+            g.emit("%s %s %s %s" % (how, t, a, u))
+            g.emit("bdump %s" % t)
+            g.emit("bset %s 8 1" % t)
+            g.emit("bdump %s" % t)
+        g.count("bsi:fixed-episodes")
+
+
 @suite("bsi")
 def _bsi(g, scale):
     b = BG(g, env_avoid())
+    fixed_bsi_episodes(g)
     for _ in range(int(40 * scale)):
         b.episode_updates(g.r.choice([8, 15, 25]))
     widen_matrix(g, max(1, int(2 * scale)))
